@@ -240,6 +240,14 @@ func (s *Service) beaconBlockProposal(ctx context.Context,
 	}
 	proposal := proposalResponse.Data
 	s.log.Trace().Dur("elapsed", time.Since(started)).Msg("Obtained beacon block proposal")
+	if proposal == nil {
+		errCh <- &beaconBlockError{
+			provider: name,
+			err:      errors.New("beacon block proposal nil"),
+		}
+
+		return
+	}
 
 	if proposal.Version != spec.DataVersionPhase0 &&
 		proposal.Version != spec.DataVersionAltair {
